@@ -340,7 +340,12 @@ class Gen(object):
             if r < 0.5:
                 return nq
             if r < 0.8:
-                return query.Or([nq] + [self.tree(max(0, depth - 1)) for _ in range(rng.randint(1, 2))])
+                sib = [self.tree(max(0, depth - 1)) for _ in range(rng.randint(1, 2))]
+                if rng.random() < 0.5:
+                    # a same-field match-all sibling must not absorb the nested query (it matches OTHER documents than its sub-query)
+                    sib.append(query.Every(inner.field() or "t"))
+                    rng.shuffle(sib)
+                return (query.Or if rng.random() < 0.8 else query.DisjunctionMax)([nq] + sib)
             return query.Not(nq)
         if depth == 0 or rng.random() < 0.25:
             if self.spans and rng.random() < 0.10:
